@@ -37,6 +37,21 @@ type job struct {
 	shared []*g.WarriorData // battle: warriors shared between jobs (and with the caller)
 	offs   []int
 	seq    string // result when run alone
+	seqAfter bool // the run-alone result is taken after the concurrent phase (no warm-up of any cache)
+	reset  bool   // battle: run, Reset, respawn and run again; both runs must give the same result
+	expect string // battle: result of the reference MARS (independent of any history)
+}
+
+func battleSummary(surv []bool, cycles int, m int, cell func(a int) g.Instruction, queues [][]int) string {
+	h := fnv.New64a()
+	for a := 0; a < m; a++ {
+		c := cell(a)
+		fmt.Fprintf(h, "%d.%d.%d.%d.%d.%d;", c.Op, c.OpMode, c.AMode, c.A, c.BMode, c.B)
+	}
+	for _, q := range queues {
+		fmt.Fprintf(h, "%v|", q)
+	}
+	return fmt.Sprintf("surv=%v cycles=%d h=%x", surv, cycles, h.Sum64())
 }
 
 // summary of a WarriorData / error pair (error message not included: it may
@@ -78,16 +93,30 @@ func (j *job) run() (res string) {
 				return "spawn-error"
 			}
 		}
-		surv := s.Run()
-		h := fnv.New64a()
-		for a := g.Address(0); a < s.CoreSize(); a++ {
-			c := s.GetMem(a)
-			fmt.Fprintf(h, "%d.%d.%d.%d.%d.%d;", c.Op, c.OpMode, c.AMode, c.A, c.BMode, c.B)
+		summary := func(surv []bool) string {
+			var qs [][]int
+			for _, w := range ws {
+				q := []int{}
+				for _, pc := range w.Queue() {
+					q = append(q, int(pc))
+				}
+				qs = append(qs, q)
+			}
+			return battleSummary(surv, s.CycleCount(), int(s.CoreSize()), func(a int) g.Instruction { return s.GetMem(g.Address(a)) }, qs)
 		}
-		for _, w := range ws {
-			fmt.Fprintf(h, "%v|", w.Queue())
+		first := summary(s.Run())
+		if j.reset {
+			s.Reset()
+			for i := range j.shared {
+				if err := s.SpawnWarrior(i, g.Address(j.offs[i])); err != nil {
+					return "respawn-error"
+				}
+			}
+			if second := summary(s.Run()); second != first {
+				return "AFTER-RESET-DIFFERS: " + first + " vs " + second
+			}
 		}
-		return fmt.Sprintf("surv=%v cycles=%d h=%x", surv, s.CycleCount(), h.Sum64())
+		return first
 	default:
 		wd, err := g.CompileWarrior(strings.NewReader(j.text), j.cfg)
 		return sumWarrior(wd, err)
@@ -113,9 +142,9 @@ func sameWD(a, b g.WarriorData) bool {
 }
 
 func runC14(c *Ctx) {
-	rounds := int64(60)
+	rounds := int64(160)
 	if c.Thorough() {
-		rounds = 1500
+		rounds = 6000
 	}
 	if !c.Race {
 		rounds *= 4
@@ -213,12 +242,29 @@ func runC14(c *Ctx) {
 				j.text = asm.Perturb(asm.PrintLoadFile(code, start, asm.D94, ac.CoreSize, r.Intn(4), r), r.Intn(1<<10), asm.D94, r)
 			default:
 				j.kind = jkBattle
-				j.cfg = bcfg.config()
+				// every battle job has its own process and cycle limits (same core size: the warriors are shared)
+				jb := *bcfg
+				jb.P = r.Range(1, 8)
+				jb.C = r.Range(1, 200)
+				j.cfg = jb.config()
+				j.reset = r.Chance(1, 3)
 				n := r.Range(1, len(sharedPool))
+				ref := mars.NewBattle(jb.M, jb.P, jb.C, jb.R, jb.W)
 				for i := 0; i < n; i++ {
-					j.shared = append(j.shared, sharedPool[(i+k)%len(sharedPool)])
+					wi := (i + k) % len(sharedPool)
+					j.shared = append(j.shared, sharedPool[wi])
 					j.offs = append(j.offs, r.Intn(2*bcfg.M))
+					ref.Add(mars.WarriorCode{Code: bcfg.Warriors[wi].Code, Start: bcfg.Warriors[wi].Start})
 				}
+				for i := range j.shared {
+					ref.Spawn(i, j.offs[i])
+				}
+				surv := ref.Run()
+				var qs [][]int
+				for _, w := range ref.W {
+					qs = append(qs, append([]int{}, w.Queue...))
+				}
+				j.expect = battleSummary(surv, ref.Cycle, ref.M, func(a int) g.Instruction { return toG(ref.Core[a]) }, qs)
 			}
 			if j.kind <= jkAsmEqu && estimateExpansion(j.text) > maxExpansion {
 				j.kind = jkAsmValid
@@ -236,9 +282,13 @@ func runC14(c *Ctx) {
 				}
 			}
 		}
-		// sequential results first
-		for _, j := range jobs {
-			j.seq = j.run()
+		// run-alone results: for half of the jobs before the concurrent phase, for the others only
+		// afterwards, so that no cache a job may fill is warm when its concurrent twin runs
+		for k, j := range jobs {
+			j.seqAfter = k%2 == 1
+			if !j.seqAfter {
+				j.seq = j.run()
+			}
 		}
 		c.Count("jobs", int64(len(jobs)))
 		procs := []int{1, 2, 4, 16}[r.Intn(4)]
@@ -281,8 +331,26 @@ func runC14(c *Ctx) {
 		}
 		wg.Wait()
 		runtime.GOMAXPROCS(prev)
+		for _, j := range jobs {
+			if j.seqAfter {
+				j.seq = j.run()
+			}
+		}
 		for k, j := range jobs {
 			c.Inc("jobs_" + jobKindNames[j.kind])
+			if j.kind == jkBattle {
+				c.Inc("battles_compared_with_reference")
+				if j.reset {
+					c.Inc("battles_with_reset_and_rerun")
+				}
+				for _, got := range []string{j.seq, results[k]} {
+					if got != j.expect {
+						c.Violate("C14:battle-outcome-depends-on-history", fmt.Sprintf("battle job %d (P=%d C=%d, reset=%v) gave %q; the reference MARS, which knows nothing of the other simulators, gives %q", k, j.cfg.Processes, j.cfg.Cycles, j.reset, got, j.expect),
+							map[string]interface{}{"config": j.cfg, "offsets": j.offs, "warriors": len(j.shared)})
+						return
+					}
+				}
+			}
 			if results[k] != j.seq {
 				c.Violate("C14:result-differs:"+jobKindNames[j.kind], fmt.Sprintf("job %d (%s) run concurrently with %d other jobs on %d threads (GOMAXPROCS %d) gave %q; run alone it gave %q", k, jobKindNames[j.kind], len(jobs)-1, nthreads, procs, results[k], j.seq),
 					map[string]interface{}{"kind": jobKindNames[j.kind], "text": describeText(j.text), "config": j.cfg})
